@@ -2,6 +2,7 @@ package main
 
 import (
 	"fmt"
+	"os"
 	"strings"
 	"time"
 	"unsafe"
@@ -19,10 +20,10 @@ func init() {
 }
 
 type stopScenario struct {
-	cause   string // eof err close reset short outofseq cancel-idle cancel-handler handler-err invalid unsupported mapper-err connect-fail
-	ahead   bool   // the master is far ahead of the parser when the stop happens (reader may hold an event)
-	slow    bool   // slow handler
-	atTx    int
+	cause             string // eof err close reset short outofseq cancel-idle cancel-handler handler-err invalid unsupported mapper-err connect-fail
+	ahead             bool   // the master is far ahead of the parser when the stop happens (reader may hold an event)
+	slow              bool   // slow handler
+	atTx              int
 	cancelBeforeError bool
 }
 
@@ -385,7 +386,72 @@ func runC07(c *Ctx) {
 				a.events = evs[:2+r.Intn(len(evs)-2)]
 				a.terminal = r.PickS("close", "eof", "err", "reset")
 			}
+			// the master's answer to the checksum announcement of this attempt
+			reply := "ok"
+			if r.Chance(1, 4) {
+				reply = r.PickS("rejected", "lost")
+			}
+			thisAtt, thisReply := att, reply
+			env.m.mu.Lock()
+			env.m.queryReply = func(idx int, sql string) string {
+				if idx == thisAtt && thisReply != "ok" {
+					return thisReply
+				}
+				return ""
+			}
+			env.m.mu.Unlock()
 			res := env.run(att, a, base)
+			if res.outcome == "panic" {
+				c.R.Add(vh.Mismatch{Kind: "spec", What: "handshake: Stream panicked", Case: fmt.Sprintf("server id %d, attempt %d at %q:%d units=%v", sid, att, wantFile, wantOff, h.kinds), InDomain: true})
+				break
+			}
+			// model of the handshake against what the master received
+			{
+				hs := c.M.Call(vh.L(vh.A("handshake"), vh.U(uint64(sid)), vh.L(vh.X([]byte(wantFile)), vh.I(wantOff)), vh.A(reply)))
+				var obs []vh.Val
+				qi, di := 0, 0
+				for _, o := range res.order {
+					switch o {
+					case "query":
+						if qi < len(res.queries) {
+							obs = append(obs, vh.L(vh.A("query"), vh.X([]byte(res.queries[qi]))))
+						}
+						qi++
+					case "dump":
+						if di < len(res.dumps) {
+							d := res.dumps[di]
+							obs = append(obs, vh.L(vh.A("dump"), vh.U(uint64(d.Pos)), vh.U(uint64(d.Flags)), vh.U(uint64(d.ServerID)), vh.X([]byte(d.File))))
+						}
+						di++
+					}
+				}
+				if os.Getenv("VH_DEBUG") != "" {
+					fmt.Fprintf(os.Stderr, "k=%d att=%d reply=%s order=%v nconns=%d err=%v outcome=%s calls=%d term=%s nev=%d\n", k, att, reply, res.order, env.m.nconns(), res.streamErr, res.outcome, len(res.calls), a.terminal, len(a.events))
+					for ci := 0; ci < env.m.nconns(); ci++ {
+						fmt.Fprintf(os.Stderr, "    conn %d order=%v\n", ci, env.m.conn(ci).order)
+					}
+				}
+				c.R.Dist["handshake_model_checked"]++
+				c.R.Count("announcement-" + reply)
+				hdesc := fmt.Sprintf("server id %d, attempt %d at %q:%d, master answers the announcement with %s", sid, att, wantFile, wantOff, reply)
+				if res.returned && hs.Nth(0).String() != vh.L(obs...).String() {
+					c.R.Add(vh.Mismatch{Kind: "corr", What: "handshake: the requests the master received differ from the model", Case: hdesc,
+						Model: hs.Nth(0).String(), Impl: fmt.Sprintf("%s (Stream returned %v; %d connections so far)", vh.L(obs...).String(), res.streamErr, env.m.nconns()), InDomain: true})
+				}
+				if res.returned && reply != "ok" {
+					if res.streamErr == nil {
+						c.R.Add(vh.Mismatch{Kind: "spec", What: "handshake: Stream returned nil although the checksum announcement failed", Case: hdesc, InDomain: true})
+					}
+					if res.stored.Filename != wantFile || res.stored.Offset != wantOff {
+						c.R.Add(vh.Mismatch{Kind: "spec", What: "handshake: a failed announcement changed the stored position", Case: hdesc,
+							Expected: fmt.Sprintf("%q:%d", wantFile, wantOff), Impl: fmt.Sprintf("%q:%d", res.stored.Filename, res.stored.Offset), InDomain: true})
+					}
+					if res.errorRes == "blocked" {
+						c.R.Add(vh.Mismatch{Kind: "spec", What: "handshake: Error() blocks after a failed announcement", Case: hdesc, InDomain: true})
+					}
+					continue
+				}
+			}
 			sidc := "random"
 			for _, x := range []uint32{0, 1, 2147483647, 2147483648, 4294967295} {
 				if sid == x {
@@ -442,6 +508,11 @@ func renameFiles(h *history, f func(i int) string) {
 			e.body = vh.L(e.body.Nth(0), e.body.Nth(1), vh.X([]byte(m[string(oldName)])))
 		}
 	}
+	fc := map[string]Cfg{}
+	for old, c := range h.fileCfg {
+		fc[m[old]] = c
+	}
+	h.fileCfg = fc
 	for i := range h.txs {
 		h.txs[i].nowFile = m[h.txs[i].nowFile]
 		h.txs[i].nextFile = m[h.txs[i].nextFile]
@@ -549,7 +620,9 @@ func genAliasHistory(r *vh.Rng, cfg Cfg, big int) *history {
 		mk(sym("timestamp"), "timestamp", func(r *vh.Rng) vh.Val { return sym("ts", int64(r.Pick(0, 0, 86400*365)), 0) })
 		mk(sym("ts2", 0), "timestamp2", func(r *vh.Rng) vh.Val { return sym("ts", int64(r.Pick(0, 0, 86400*365)), 0) })
 		mk(sym("ts2", 3), "timestamp2", func(r *vh.Rng) vh.Val { return sym("ts", 0, 0) })
-		mk(sym("bit", 20), "bit", func(r *vh.Rng) vh.Val { return vh.L(vh.A("bits"), vh.X([]byte{byte(r.Intn(16)), byte(r.U64()), byte(r.U64())})) })
+		mk(sym("bit", 20), "bit", func(r *vh.Rng) vh.Val {
+			return vh.L(vh.A("bits"), vh.X([]byte{byte(r.Intn(16)), byte(r.U64()), byte(r.U64())}))
+		})
 		mk(sym("set", 2, 1), "set", func(r *vh.Rng) vh.Val { return vh.L(vh.A("set"), vh.U(r.U64()%65536)) })
 		mk(sym("char", 255), "char", func(r *vh.Rng) vh.Val { return randBytesVal(r, r.Intn(20)) })
 		mk(sym("geo", 2), "geometry", func(r *vh.Rng) vh.Val { return randBytesVal(r, 25) })
